@@ -172,6 +172,17 @@ def make_pool(asm, n, root='/nonexistent-bbc16'):
             for v in rnd.sample(range(1, 30), 3):
                 pool.append(dict(kind='same-names', group='sn_' + nm, src='%s = %d\nL0:\n%s    addi x5, x5, %s\n    li x6, %s + 1\n    j L0\nL1:\n    dw L1\n' % (
                     nm, v, '    nop\n' * rnd.randrange(0, 6), nm, nm)))
+    # Python-only syntax that BINDS a name while a constant is evaluated: whatever it does, it does to this call only
+    pool.append(dict(kind='walrus', group='walrus', src='N_W = 3\nAREA_W = (k_w := N_W + 1) * k_w\n    dw AREA_W\n'))
+    pool.append(dict(kind='walrus', group='walrus', src='k_w = 7\nt0_w = (t0 := 31)\n    addi t0, x0, 1\n    dw k_w\n'))
+    pool.append(dict(kind='walrus', group='walrus', src='    addi x5, x0, 1\nk_w = 9\n    dw k_w\n'))
+    # a legacy source file that is not UTF-8, and UTF-8 files with non-ASCII text: how one file was decoded says nothing about the next
+    enc = {'e/legacy.asm': 'start_l:\n    string caf\u00e9\n    align 4\n    j start_l\n'.encode('latin-1'),
+           'e/utf8.asm': 'start_u:\n    string gr\u00fc\u00dfe \u2192 \u65e5\u672c\n    align 4\nafter_u:\n    j after_u\n'.encode('utf-8'),
+           'e/utf8b.asm': '# \u00fcber\n    string \u00e9\u00e8\nend_b:\n    dw end_b\n'.encode('utf-8')}
+    for rel in sorted(enc):
+        pool.append(dict(kind='encoding:' + rel.split('/')[1], group='encoding', path=os.path.join(root, rel), include_dirs=None, files=enc,
+                         troot=os.path.join(root, 'e')))
     for j, p in enumerate(pool):
         p['id'] = j
     return pool
@@ -247,6 +258,8 @@ def snapshot(asm):
             snap[n] = ('set', id(t), sorted(map(repr, t)))
         else:
             snap[n] = ('other', id(t), repr(t))
+    # process-wide state a call could leave behind: the working directory (relative paths and includes of later calls hang on it)
+    snap['(process working directory)'] = ('other', 0, os.getcwd())
     return snap
 
 
@@ -281,7 +294,7 @@ def diff_snap(a, b):
                 return '{}: values changed for keys {}'.format(n, ch[:5])
             if kind == 'set' and n in b:
                 return '{}: members changed (added {}, removed {})'.format(n, sorted(set(b[n][2]) - set(a[n][2]))[:5], sorted(set(a[n][2]) - set(b[n][2]))[:5])
-            return '{}: changed'.format(n)
+            return '{}: changed ({!r} -> {!r})'.format(n, a[n][2], b[n][2]) if a[n][0] == 'other' and n in b else '{}: changed'.format(n)
     for n in b:
         if n not in a:
             return '{}: appeared'.format(n)
@@ -352,6 +365,8 @@ def worker(args):
     asm = progs.get_asm()
     pool = make_pool(asm, pool_n, root)
     groups = group_map(pool)
+    if os.path.isdir(root):
+        os.chdir(root)
     out = dict(wid=wid, obs=[], table_changes=[], other_changes=[], histories=[], calls=[])
     for h in range(n_hist):
         rnd = common.rng('c16:hist:%d:%d' % (wid, h))
